@@ -5,6 +5,7 @@ from ..r_construct import rule_literal_keys, rule_keep_lists
 from ..r_alias import rule_no_mutation_of_cached
 from ..r_construct import rule_seeded_string_complete as _rule_seeded
 from ..r_hygiene import rule_hygiene as _rule_hygiene
+from ..r_protocol import run_protocol as _run_protocol
 
 LEVEL = 'other'
 
@@ -22,3 +23,5 @@ def run(ck, repo):
     rule_no_mutation_of_cached(ck, repo, 'C19.D4-cached-value-not-mutated')
     _rule_seeded(ck, repo, 'C19.D4-seeded-string')
     _rule_hygiene(ck, repo, 'C19.H-dataflow-hygiene', 'C19')
+    # cached and uncached calls agree: no cached value is read between a raw write it depends on and the next flush (FLUSH dimension + stale reads)
+    _run_protocol(ck, repo, 'C19.D4-first-call-equals-cached-call', only_dims={'FLUSH'})
